@@ -24,7 +24,8 @@ REGISTRY = {
               'above-MSA / flag is extracted from the guards of its exits and compared with the specification; that the '
               'lowest cloud layer and the ceiling are always flagged is checked on the product of the extracted '
               'transducer with an observer automaton (all okta sequences); the flag is raised iff more than '
-              'MAX_HITS_OKTA0 hits were cropped.',
+              'MAX_HITS_OKTA0 hits were cropped; the MSA given per call (None included) is the one the chunk works with (the merge '
+              'routine stores every value of a known key).',
               'The bridge from the atoms to the wording of the property uses the sortedness of the table (checked).'),
     'C03': _o('provenance-term comparison (distinct (ceilo, dt) counting), linear normal form of the okta guard chain, '
               'kernel monotonicity of perc2okta, rounding-discipline analysis of the percentage expression (exact on the '
@@ -51,7 +52,7 @@ REGISTRY = {
               'from its parent stage, sentinel -1 handled consistently by counters and table builder, cluster labels are '
               'written to exactly the rows fed to the clustering, no stage modifies or drops hits, every path through the '
               'per-group loop of find_layers rewrites ncomp (repeated calls), and the sub-layer ids of a group are written exactly '
-              'when its stored count exceeds one. That scikit-learn '
+              'when its stored count exceeds one; a refused stage call is refused before any per-hit id or table is rewritten. That scikit-learn '
               'returns one label per row and that mixture components are populated is not claimed.',
               'One label per fed row from scikit-learn (A1).'),
     'C06': _o('provenance of the heights handed to calc_base_height (must derive from the time-sorted data), sibling '
@@ -77,7 +78,8 @@ REGISTRY = {
               'oktas) is established by a dominating guard at the wrapper or at every call site; the raw input is only '
               'passed along or deep-copied until its type has been tested; label-based selections run on a normalised '
               'index; no local name is read on a loop-free path that leaves it unbound and every name resolves in some '
-              'scope (no UnboundLocalError / NameError). Termination/totality of '
+              'scope (no UnboundLocalError / NameError); the scalings keep non-detections NaN (the rows clustered and the rows labelled '
+              'are selected on either side of them); the selection handed to the base routine is never empty. Termination/totality of '
               'the third-party numerics is NOT claimed.', ''),
     'C09': _o('effect analysis (global-RNG consumers confined under tmp_seed), explicit random_state binding across call '
               'sites, try/finally typestate of tmp_seed, set-iteration and clock-taint scans, module-state confinement',
@@ -90,7 +92,8 @@ REGISTRY = {
               'column access before normalisation, coercion table',
               'The private copy gets a fresh RangeIndex before any label-based row operation and no method de-normalises '
               'it; columns of the user frame are only addressed by name; every required column is cast to the tested '
-              'dtype and every other column dropped.', 'Label alignment semantics of pandas (A1).'),
+              'dtype and every other column dropped; row positions and index labels are never mixed (a Series built from bare values '
+              'is not combined label-wise with the chunk data); columns are never selected by a range of labels.', 'Label alignment semantics of pandas (A1).'),
     'C11': _o('inter-procedural mutation / ownership summaries (deep vs shallow copies, return aliases) over the whole '
               'package', 'No public entry point writes through an argument it borrowed, the global parameter dictionary '
               'has exactly two writers, nothing writes through the snapshot after construction, and the chunk fields are '
@@ -118,7 +121,7 @@ REGISTRY = {
               'Every dereference of a stage product is dominated by a presence guard raising AmpycloudError; a stage that '
               'overwrites a later stage\'s product refuses when it exists; no call-order refusal is reachable after a '
               'write to chunk state; each stage resets its own id column before reading it or the hit table as a whole. Holds for every call '
-              'sequence because it is a property of each method in every abstract state. A stage writes the id column of its own level only and leaves it resettable.',
+              'sequence because it is a property of each method in every abstract state. A stage writes the id column of its own level only and leaves it resettable. Everything else a caller can invoke on a chunk (metar_msg, the properties) writes nothing of it.',
               'Equality of recomputed tables rests on determinism (C09).'),
     'C15': _o('census and classification of the refusal conditions of check_data_consistency (own condition of every '
               'raise), ordering of normalisation steps, trigger/repair agreement',
@@ -129,7 +132,7 @@ REGISTRY = {
     'C16': _o('name-taint scan over provenance terms: ceilometer names may only meet ==, !=, membership in the exclusion '
               'list, unique, len; per-ceilometer results only order-insensitive integer reductions',
               'Renaming can only matter through ordering, string operations, positional use of the sorted name list or '
-              'order-sensitive combination of per-ceilometer values; each is excluded on the processing path.',
+              'order-sensitive combination of per-ceilometer values, or through state kept between chunks under the names; each is excluded on the processing path.',
               'EXCLUDE_FOR_BASE_HEIGHT_CALC is a list (A5).'),
     'C17': {
         'level': 'model_checking',
@@ -158,7 +161,7 @@ REGISTRY = {
               'across its steps and its inverse switches segment at the images of the step edges (for 0..5 edges, '
               'symbolic edges and scales); convert_kwargs derives a parameter only when it is absent, only when scaling, '
               'and every result it returns for a scaling carries all the parameters that scaling needs (propositional '
-              'entailment over the guards); every routine scales when called without a mode. That min-max scaling lands in [0, 1] numerically is not claimed.', A2 + 'scale > 0, max > min, step scales > 0 (A5).'),
+              'entailment over the guards); every routine scales when called without a mode; the interval derived for the min-max scaling encloses the data on every path (Farkas certificates over the path conditions); no scaling routine keeps anything between calls (module-level objects, memoisation). That min-max scaling lands in [0, 1] numerically is not claimed.', A2 + 'scale > 0, max > min, step scales > 0 (A5).'),
     'C20': _o('effect analysis of plot code (rcParams writers, figure lifecycle under `not show`, file writes under '
               '`save_stem is not None`), chunk read-only summaries, modulo rule on style-cycle subscripts, '
               'no-state-between-plots rule (memoised results never modified, no module-level writes on the plotting path), '
@@ -167,7 +170,7 @@ REGISTRY = {
               'functions run inside plt.style.context; the figure is closed on every normal show=False path; files are '
               'written once per requested format only when a stem is given; plot code has no write effect on the chunk; '
               'style cycles are indexed modulo their length; nothing kept between two plots is altered; string literals stored into '
-              'arrays of string literals fit their fixed width; no local is read '
+              'arrays of string literals fit their fixed width; at most one call creates a figure on any path of a plotting function; arguments that may be None enter concatenation / arithmetic only where the path condition excludes None; no local is read '
               'unbound on a loop-free path. Totality of '
               'matplotlib is not claimed.', ''),
 }
